@@ -54,6 +54,26 @@
 (* both values.  Design = "optin" is the defective reading ("keep-alives   *)
 (* are opt-in": no keep-alive instance at all unless lka), kept so that    *)
 (* TLC shows EnabledIsReachable is not vacuous in this dimension.          *)
+(*                                                                         *)
+(* HISTORIES: A ROLE WAS STOPPED BEFORE THE PROBE.  "An enabled protocol   *)
+(* is ALWAYS reachable through the connection" is a statement about every  *)
+(* moment of the connection's life, not only about the moment after        *)
+(* set-up.  The one thing that changes the registered set afterwards is    *)
+(* the application (or the protocol itself, on Done) stopping ONE role of  *)
+(* ONE mini-protocol: Client.Stop() / Server.Stop() -> Protocol.Stop() ->  *)
+(* Muxer.UnregisterProtocol(id, role).  A configuration therefore carries  *)
+(* `stop`: NoStop, or the (protocol, role) pair - one the negotiation      *)
+(* obliged the connection to run - that was stopped between set-up and the *)
+(* probe (action DoStop).  Stopping <<p, r>> removes exactly that pair:    *)
+(* the opposite role of p (on a duplex connection both share the protocol  *)
+(* number in the muxer) and every other protocol stay registered and       *)
+(* reachable (StopRemovesExactlyThatPair; StartedIffEnabled and            *)
+(* EnabledIsReachable are stated about Live(c) = Required(c) minus the     *)
+(* stopped pair).  About a segment for the stopped pair itself the         *)
+(* property is silent (expectation "any").  Design = "dropid" is the       *)
+(* defective reading (the whole per-protocol-number entry goes when one    *)
+(* role is unregistered), kept so that TLC shows the invariants are not    *)
+(* vacuous in this dimension.                                              *)
 (***************************************************************************)
 EXTENDS Integers, FiniteSets, Sequences, SequencesExt, Json, TLC
 
@@ -62,13 +82,17 @@ CONSTANTS
     NtCVersions,   \* supported node-to-client versions (without the 0x8000 class bit)
     DMQVersions,   \* supported DMQ node-to-client versions (without the 0x1000 class bit)
     ExtraIds,      \* protocol numbers no connection of these kinds ever runs
-    Design,        \* "fixed" | "legacy" | "optin"
+    Design,        \* "fixed" | "legacy" | "optin" | "dropid"
     \* Every configuration is taken with the local keep-alive option on (there it
     \* must be without effect on node-to-client / DMQ connections).  With the option off:
     LkaOffKinds,   \* the connection kinds taken (quick tier: node-to-node, where the
                    \* option means something; thorough: all kinds)
-    LkaOffFull     \* TRUE: with every peer-sharing setting (thorough);
+    LkaOffFull,    \* TRUE: with every peer-sharing setting (thorough);
                    \* FALSE: with peer sharing off on both sides only (quick)
+    \* Every configuration is taken without a stopped role.  With one role stopped:
+    StopScope      \* "none": no histories; "duplex": the configurations that negotiated
+                   \* duplex operation, local keep-alive option on, peer sharing set alike
+                   \* on both sides (quick); "all": every configuration (thorough)
 
 LeiosIds == {18, 19, 20}
 KnownIds == {2, 3, 4, 5, 6, 7, 8, 9, 10, 14, 15} \cup LeiosIds
@@ -84,20 +108,25 @@ VersionsOf(kind) == CASE kind = "ntn" -> NtNVersions
                       [] kind = "ntc" -> NtCVersions
                       [] kind = "dmq" -> DMQVersions
 
-\* Configurations.  The peer's diffusion mode and peer-sharing flag only exist
-\* on the wire of node-to-node version data (peer sharing from v11).  lka is the
-\* local, never negotiated, "send keep-alives" option of the application.
-Configs ==
+\* "no role was stopped" (not a member of Keys: removing it removes nothing)
+NoStop == <<0, "none">>
+
+\* Configurations without a history.  The peer's diffusion mode and peer-sharing
+\* flag only exist on the wire of node-to-node version data (peer sharing from
+\* v11).  lka is the local, never negotiated, "send keep-alives" option of the
+\* application.
+BaseConfigs ==
     { c \in [server : BOOLEAN, kind : {"ntn", "ntc", "dmq"}, lfd : BOOLEAN, pfd : BOOLEAN,
              ver : NtNVersions \cup NtCVersions \cup DMQVersions, lps : BOOLEAN, pps : BOOLEAN,
-             lka : BOOLEAN] :
+             lka : BOOLEAN, stop : {NoStop}] :
         /\ c.ver \in VersionsOf(c.kind)
         /\ c.kind # "ntn" => (~c.pfd /\ ~c.lps /\ ~c.pps)
         /\ (c.kind = "ntn" /\ c.ver < 11) => ~c.pps
         /\ ~c.lka => (c.kind \in LkaOffKinds /\ (LkaOffFull \/ (~c.lps /\ ~c.pps))) }
 
 ASSUME LkaOffKinds \subseteq {"ntn", "ntc", "dmq"} /\ LkaOffFull \in BOOLEAN
-ASSUME Design \in {"fixed", "legacy", "optin"}
+ASSUME Design \in {"fixed", "legacy", "optin", "dropid"}
+ASSUME StopScope \in {"none", "duplex", "all"}
 
 Segs == [id : Ids, resp : BOOLEAN]
 
@@ -133,6 +162,21 @@ Required(c) == ((Enabled(c) \X NegRoles(c)) \ AppOptional(c))
 \* protocols whose responder hands a well-formed first request to the application
 \* (peer sharing only when negotiated; never through a refusing instance)
 AppIds(c) == Enabled(c) \cup (IF c.kind = "ntn" THEN LeiosIds ELSE {})
+
+\* The histories.  Only a pair that certainly runs can be stopped: one the
+\* negotiation obliges the connection to run.
+StopSpace(b) ==
+    CASE StopScope = "none"   -> {}
+      [] StopScope = "duplex" -> IF NegDuplex(b) /\ b.lka /\ b.lps = b.pps THEN Required(b) ELSE {}
+      [] StopScope = "all"    -> Required(b)
+
+Configs == BaseConfigs \cup UNION { { [b EXCEPT !.stop = k] : k \in StopSpace(b) } : b \in BaseConfigs }
+
+\* what the connection is still obliged to run after the history
+Live(c) == Required(c) \ {c.stop}
+
+\* the other role of the stopped protocol (shares the protocol number in the muxer)
+Opposite(k) == <<k[1], IF k[2] = "init" THEN "resp" ELSE "init">>
 
 -----------------------------------------------------------------------------
 (* (B) the machine                                                           *)
@@ -175,6 +219,11 @@ Setup(c, impl) ==
                            THEN (IF hsFD THEN "IR" ELSE IF c.server THEN "R" ELSE "I")
                            ELSE (IF both THEN "IR" ELSE IF c.server THEN "R" ELSE "I") ]
 
+\* Protocol.Stop -> Muxer.UnregisterProtocol(id, role): the receiver of exactly
+\* that (protocol, role) pair goes; instances and muxer mode are untouched
+AfterStop(s, k) ==
+    [s EXCEPT !.registered = IF Design = "dropid" THEN {q \in @ : q[1] # k[1]} ELSE @ \ {k}]
+
 \* the responder's own guard in front of the application callback
 Guard(c, id) ==
     id = 10 => (IF Design = "legacy" THEN c.lps ELSE c.lps /\ c.pps)
@@ -185,7 +234,7 @@ NoSeg   == [id |-> 0, resp |-> FALSE]     \* nothing read yet
 VARIABLES
     c, impl,        \* the configuration and the open choices (fixed)
     seg,            \* the one inbound segment (chosen when readLoop reads it)
-    pc,             \* "setup" | "read" | "route" | "deliver" | "handle" | "done"
+    pc,             \* "setup" | "stop" | "read" | "route" | "deliver" | "handle" | "done"
     st,             \* result of setupConnection
     delivered,      \* the segment was put on a receiver's channel
     app,            \* the application callback of a responder ran
@@ -201,7 +250,13 @@ Init ==
 Fail(why) == errs' = errs \cup {why} /\ pc' = "done"
 
 DoSetup ==
-    /\ pc = "setup" /\ st' = Setup(c, impl) /\ pc' = "read"
+    /\ pc = "setup" /\ st' = Setup(c, impl)
+    /\ pc' = IF c.stop = NoStop THEN "read" ELSE "stop"
+    /\ UNCHANGED <<c, seg, impl, delivered, app, errs>>
+
+\* the history: one running role is stopped before the peer's segment arrives
+DoStop ==
+    /\ pc = "stop" /\ st' = AfterStop(st, c.stop) /\ pc' = "read"
     /\ UNCHANGED <<c, seg, impl, delivered, app, errs>>
 
 \* readLoop after the payload was read: the direction gate
@@ -237,7 +292,7 @@ Handle ==
 
 Done == pc = "done" /\ UNCHANGED vars
 
-Next == DoSetup \/ Read \/ Route \/ Deliver \/ Handle \/ Done
+Next == DoSetup \/ DoStop \/ Read \/ Route \/ Deliver \/ Handle \/ Done
 
 -----------------------------------------------------------------------------
 (* the same run as a function of the case (what is emitted)                  *)
@@ -256,15 +311,18 @@ OutcomeS(cc, sg, s) ==
           THEN [deliver |-> TRUE, app |-> TRUE, errs |-> {}]
           ELSE [deliver |-> TRUE, app |-> FALSE, errs |-> {"refused"}]
 
-Outcome(cc, sg, im) == OutcomeS(cc, sg, Setup(cc, im))
+SetupH(cc, im) == IF cc.stop = NoStop THEN Setup(cc, im) ELSE AfterStop(Setup(cc, im), cc.stop)
+
+Outcome(cc, sg, im) == OutcomeS(cc, sg, SetupH(cc, im))
 
 MachineMatchesOutcome ==
     pc = "done" => [deliver |-> delivered, app |-> app, errs |-> errs] = Outcome(c, seg, impl)
 
 TypeOK ==
-    /\ pc \in {"setup", "read", "route", "deliver", "handle", "done"}
+    /\ pc \in {"setup", "stop", "read", "route", "deliver", "handle", "done"}
     /\ delivered \in BOOLEAN /\ app \in BOOLEAN
-    /\ pc = "read" => (st.registered \subseteq Keys /\ st.constructed \subseteq Ids)
+    /\ pc \in {"stop", "read"} => (st.registered \subseteq Keys /\ st.constructed \subseteq Ids)
+    /\ c.stop # NoStop => c.stop \in Required(c)
     /\ st.mode \in {"none", "I", "R", "IR"}
 
 -----------------------------------------------------------------------------
@@ -280,11 +338,13 @@ ResponderOnlyNeverDeliversResponse ==
         /\ ~delivered
         /\ pc = "done" => errs # {}
 
-\* (the setup result never changes after DoSetup: it is examined once, at pc = "read")
+\* (the registered set never changes after DoSetup / DoStop: it is examined at
+\* pc = "stop", before the history, and at pc = "read", after it)
 StartedIffEnabled ==
+    /\ pc = "stop" => \A k \in Required(c) : k \in st.registered
     /\ pc = "read" =>
          \A k \in Keys :
-            /\ k \in Required(c) => k \in st.registered
+            /\ k \in Live(c) => k \in st.registered
             /\ k \in st.registered => (k[2] \in NegRoles(c) /\ k[1] \in Enabled(c) \cup OpenIds(c))
     /\ delivered => (RoleFor(seg) \in NegRoles(c) /\ seg.id \in Enabled(c) \cup OpenIds(c))
     /\ app => (~seg.resp /\ "resp" \in NegRoles(c) /\ seg.id \in AppIds(c))
@@ -293,8 +353,8 @@ EnabledIsReachable ==
     /\ pc = "read" =>
          \A id \in Enabled(c) :
             /\ id \in st.constructed
-            /\ \A r \in NegRoles(c) : <<id, r>> \in Required(c) => <<id, r>> \in st.registered
-    /\ (pc = "done" /\ <<seg.id, RoleFor(seg)>> \in Required(c)) =>
+            /\ \A r \in NegRoles(c) : <<id, r>> \in Live(c) => <<id, r>> \in st.registered
+    /\ (pc = "done" /\ <<seg.id, RoleFor(seg)>> \in Live(c)) =>
             (delivered /\ errs = {} /\ (~seg.resp => app))
 
 \* A local option that never went on the wire cannot change what the negotiation
@@ -312,38 +372,71 @@ LocalOptInOnlyAffectsOwnInitiator ==
          /\ (Required(c) \ {<<8, "init">>}) = (Required(Flip(c)) \ {<<8, "init">>})
          /\ AppOptional(c) \subseteq (Ids \X {"init"})
     /\ pc = "read" =>
-         LET other == Setup(Flip(c), FlipImpl(c, impl))
+         LET other == SetupH(Flip(c), FlipImpl(c, impl))
          IN  /\ st.constructed = other.constructed
              /\ st.mode = other.mode
              /\ (st.registered \ {<<8, "init">>}) = (other.registered \ {<<8, "init">>})
+
+\* Stopping one role takes away that role's receiver and nothing else: the set-up
+\* minus exactly the stopped pair is what the muxer routes to afterwards; the
+\* instances and the muxer mode are the set-up's.  In particular the opposite
+\* role of the same protocol, which the negotiation enabled, is still registered
+\* (on a duplex connection; on a unidirectional one it never was) and a segment
+\* for it is delivered, and so is a segment for every other obliged pair.
+StopRemovesExactlyThatPair ==
+    c.stop # NoStop =>
+        /\ pc = "stop" => c.stop \in st.registered
+        /\ pc = "read" =>
+             LET before == Setup(c, impl)
+             IN  /\ st.registered = before.registered \ {c.stop}
+                 /\ st.constructed = before.constructed /\ st.mode = before.mode
+                 /\ Opposite(c.stop) \in Required(c) => Opposite(c.stop) \in st.registered
+                 /\ NegDuplex(c) => Opposite(c.stop) \in Required(c) \cup AppOptional(c)
+        /\ (pc = "done" /\ <<seg.id, RoleFor(seg)>> \in Required(c) /\ <<seg.id, RoleFor(seg)>> # c.stop) =>
+                (delivered /\ errs = {} /\ (~seg.resp => app))
+        /\ (pc = "done" /\ <<seg.id, RoleFor(seg)>> = c.stop) => ~delivered
 
 -----------------------------------------------------------------------------
 (* emitted cases: one row per configuration                                  *)
 
 Tri(S) == IF S = {TRUE} THEN "yes" ELSE IF S = {FALSE} THEN "no" ELSE "any"
 
+\* the property is silent about a segment for the role the application stopped
+\* itself (unless the direction gate rejects it anyway)
+Silent(cc, sg) == <<sg.id, RoleFor(sg)>> = cc.stop
+
 SegRow(cc, sg, sets) ==
     LET outs == {OutcomeS(cc, sg, s) : s \in sets}
         why  == UNION {o.errs : o \in outs}
+        open == IF Silent(cc, sg) THEN {TRUE, FALSE} ELSE {}
     IN [ id      |-> sg.id,
          resp    |-> sg.resp,
-         deliver |-> Tri({o.deliver : o \in outs}),
-         app     |-> Tri({o.app : o \in outs}),
-         err     |-> Tri({(o.errs # {}) : o \in outs}),
+         deliver |-> Tri({o.deliver : o \in outs} \cup open),
+         app     |-> Tri({o.app : o \in outs} \cup open),
+         err     |-> Tri({(o.errs # {}) : o \in outs} \cup open),
          \* the property itself demands the error only at the direction gate
          gate    |-> \E w \in why : w \in {"request on initiator-only", "response on responder-only"},
          why     |-> SetToSeq(why) ]
 
+\* the segments a history row is probed with: both directions of every protocol
+\* the negotiation enabled (the stopped protocol's other role among them)
+Probes(cc) == IF cc.stop = NoStop THEN Segs ELSE {sg \in Segs : sg.id \in Enabled(cc)}
+
+\* `constructed` and `registered` are the set-up's (what is observable when
+\* NewConnection returns, before the history); `segs` are after the history
 Row(cc) ==
-    LET sets == {Setup(cc, im) : im \in Impls(cc)}
+    LET sets  == {Setup(cc, im) : im \in Impls(cc)}
+        setsH == {SetupH(cc, im) : im \in Impls(cc)}
     IN [ server  |-> cc.server, kind |-> cc.kind, lfd |-> cc.lfd, pfd |-> cc.pfd,
          ver     |-> cc.ver, lps |-> cc.lps, pps |-> cc.pps, lka |-> cc.lka,
+         stop    |-> [id |-> cc.stop[1], role |-> cc.stop[2]],
+         live    |-> SetToSeq(Live(cc)),
          optional |-> SetToSeq(AppOptional(cc)),
          roles   |-> SetToSeq(NegRoles(cc)),
          enabled |-> SetToSeq(Enabled(cc)),
          constructed |-> SetToSeq({ <<id, Tri({(id \in s.constructed) : s \in sets})>> : id \in KnownIds }),
          registered  |-> SetToSeq({ <<k[1], k[2], Tri({(k \in s.registered) : s \in sets})>> : k \in KnownIds \X Roles }),
-         segs    |-> SetToSeq({ SegRow(cc, sg, sets) : sg \in Segs }) ]
+         segs    |-> SetToSeq({ SegRow(cc, sg, setsH) : sg \in Probes(cc) }) ]
 
 Emit == ndJsonSerialize(IF Design = "fixed" THEN "cases.ndjson" ELSE "cases_" \o Design \o ".ndjson",
                         SetToSeq({Row(cc) : cc \in Configs}))
